@@ -314,9 +314,9 @@ func (c *Cmd) wire() string {
 	case "NOOP", "EXPUNGE", "CLOSE", "UNSELECT", "IDLE":
 		return c.K
 	case "SELECT":
-		return "SELECT " + c.Mbox
+		return "SELECT " + wireName(c.Mbox)
 	case "APPEND":
-		return "APPEND " + c.Mbox + " " + flagsStr(c.Fl) + " {1+}\r\nx"
+		return "APPEND " + wireName(c.Mbox) + " " + flagsStr(c.Fl) + " {1+}\r\nx"
 	case "FETCH":
 		return p + "FETCH " + setStr(c.Set) + " (FLAGS UID)"
 	case "STORE":
@@ -324,7 +324,7 @@ func (c *Cmd) wire() string {
 	case "UIDEXPUNGE":
 		return "UID EXPUNGE " + setStr(c.Set)
 	case "COPY", "MOVE":
-		return p + c.K + " " + setStr(c.Set) + " " + c.Mbox
+		return p + c.K + " " + setStr(c.Set) + " " + wireName(c.Mbox)
 	case "SEARCH":
 		switch c.Key {
 		case "all":
@@ -363,6 +363,14 @@ type sess struct {
 	owed    []Item // predicted for an idling session but not seen yet (late wake-up)
 }
 
+// wireName: the model's mailbox A is INBOX on the wire (the one mailbox with rules of its own), B is B
+func wireName(m string) string {
+	if m == "A" {
+		return "INBOX"
+	}
+	return m
+}
+
 type world struct {
 	srv  *imapserver.Server
 	ln   *vh.Listener
@@ -374,8 +382,8 @@ func newWorld() *world {
 	w := &world{sess: map[string]*sess{}, log: vh.NewLogBuf()}
 	mem := imapmemserver.New()
 	u := imapmemserver.NewUser("u", "p")
-	u.Create("A", nil)
-	u.Create("B", nil)
+	u.Create(wireName("A"), nil)
+	u.Create(wireName("B"), nil)
 	mem.AddUser(u)
 	w.ln = vh.NewListener()
 	w.srv = imapserver.New(&imapserver.Options{
@@ -389,6 +397,21 @@ func newWorld() *world {
 	})
 	go w.srv.Serve(w.ln)
 	return w
+}
+
+func (w *world) renameInboxAwayAndBack(n int) error {
+	a, err := w.get("admin")
+	if err != nil {
+		return err
+	}
+	tmp := fmt.Sprintf("zz%d", n)
+	if _, t, err := a.raw.Cmd("RENAME INBOX " + tmp); err != nil || t.Name != "OK" {
+		return fmt.Errorf("RENAME INBOX %s: %v %+v", tmp, err, t)
+	}
+	// (a backend that leaves INBOX in place refuses the way back: what that does to the views is then judged
+	// by the audits that follow)
+	a.raw.Cmd("RENAME " + tmp + " INBOX")
+	return nil
 }
 
 func (w *world) close() {
@@ -1257,6 +1280,15 @@ func cmdRandom(path string, seed int64, traces, steps int) {
 			if phase == 0 {
 				mutator = names[rng.Intn(n)]
 				phase = 6 + rng.Intn(16)
+				if rng.Intn(3) == 0 {
+					// somebody else renames INBOX away and back between two commands: the sessions that have it
+					// selected stay on the same mailbox, nothing changes for anybody (no record: no session of the
+					// model sends or receives anything)
+					if err := w.renameInboxAwayAndBack(t*1000 + i); err != nil {
+						out.Summary(map[string]interface{}{"infra_error": err.Error()})
+						return
+					}
+				}
 			}
 			phase--
 			// who acts
